@@ -232,13 +232,14 @@ theorem copyInstWith_bspec {cs : List ClassDesc} {h0 : Heap} (W : WorldOK2 cs h0
       generalize construct cd ha sp (.imm .none) = r3 at hc C CK
       obtain ⟨h3, init⟩ := r3
       simp only at hc CK
-      cases h4c : copyEachWith dc h3 o.slots with
+      cases h4c : copySlotsWith dc h3 [] o.slots with
       | none => simp [h4c] at hc
       | some r4 =>
-        obtain ⟨h4, ss4⟩ := r4
+        obtain ⟨h4, m4, ss4⟩ := r4
         simp only [h4c] at hc
         cases hc
-        have R4 := copyEachWith_bspec S T _ h3 h1 ss4 ((e.trans ea).trans C.ext) C.blk O h4c
+        obtain ⟨_, R4⟩ := copySlotsWith_bspec S T _ h3 [] h1 m4 ss4 ((e.trans ea).trans C.ext) C.blk
+          (MemoOK.nil _ _) O (MemoSim.nil _) h4c
         intro k
         rw [lookup_slotUpdate ss4 init k (by rw [R4.keys]; exact nd)]
         by_cases hm : k ∈ ss4.map Prod.fst
